@@ -56,7 +56,7 @@ ValArr = z3.ArraySort(z3.IntSort(), Z.Val)
 ItemArr = z3.ArraySort(z3.IntSort(), ValArr)
 
 _Ev = z3.Datatype("Event")
-_Ev.declare("ev", ("kind", z3.IntSort()), ("a", Z.Val), ("b", Z.Val), ("c", Z.Val), ("d", Z.Val))
+_Ev.declare("ev", ("e_kind", z3.IntSort()), ("e_a", Z.Val), ("e_b", Z.Val), ("e_c", Z.Val), ("e_d", Z.Val))
 Event = _Ev.create()
 EvArr = z3.ArraySort(z3.IntSort(), Event)
 
@@ -73,6 +73,20 @@ def fresh(name, sort):
 
 def fresh_val(name="v"):
     return fresh(name, Z.Val)
+
+
+def has_quantifier(f, _seen=None):
+    seen = set() if _seen is None else _seen
+    todo = [f]
+    while todo:
+        e = todo.pop()
+        if e.get_id() in seen:
+            continue
+        seen.add(e.get_id())
+        if z3.is_quantifier(e):
+            return True
+        todo.extend(e.children())
+    return False
 
 
 class Obligation:
@@ -230,7 +244,10 @@ class Ctx:
         if z3.is_true(f):
             return
         self.pc.append(f)
-        self.solver.add(f)
+        # the feasibility solver sees only the quantifier-free part of the path condition (an
+        # over-approximation: an infeasible path explored anyway only yields obligations with an unsat premise)
+        if not has_quantifier(f):
+            self.solver.add(f)
 
     def feasible(self, extra=None):
         if extra is not None:
@@ -358,6 +375,8 @@ class Ctx:
             if isinstance(x, str):
                 return Z.mk_str(x)
             if isinstance(x, SV):
+                return x.t
+            if hasattr(x, "t") and z3.is_expr(x.t):
                 return x.t
             return self.to_val(x).t
 
